@@ -7,8 +7,11 @@
     [Forall label_ok ls] states the assumptions on the environment: loaders and other applications never
     produce a value with the placeholder prefix "rueidisid:", cached keys are not placeholder-shaped, client
     ids are (keepalive builds them so).  Not modelled (partial): real time (ClientTTL refresh, the Get's
-    context timeout and expiry are steps that may happen), a SET NX whose reply is lost, OverrideCacheTTL,
-    several Gets of one client racing in keepalive. *)
+    context timeout and expiry are steps that may happen), a SET NX whose reply is lost, OverrideCacheTTL.
+
+    keepalive is three steps ([AKeepReuse]: c.id was set; [AKeep]: the SET of a fresh marker; [AInstall]: the
+    second critical section), so several Gets of one client that all saw c.id == "" race in the model as they do
+    in the code; C39_lock_id_is_installed_id states what the code's [else { id = c.id }] is there for. *)
 From Coq Require Import List Arith NArith ZArith Bool.
 Require Import RV.Model.Base RV.Model.ListUpd RV.Model.Aside RV.Proofs.AsideProofs.
 Import ListNotations.
@@ -87,20 +90,40 @@ Print Assumptions C39_release_needs_dead_holder.
 
 (** DEAD LOCK RELEASED.  From any state in which the key carries the placeholder of a client whose liveness key
     is gone, a Get of another client that is about to read (with a loader, nothing cached for the two keys)
-    gets through on its own six steps and starts its loader. *)
+    gets through on its own seven steps and starts its loader. *)
 Theorem C39_dead_lock_released :
   forall (cttl : Z) (s : astate) (gi : nat) (g : get) (cl : client) (ph newid : bytes),
     focus s gi g cl -> g_st g = GSRead -> g_fn g = true ->
     sget (a_store s) (g_key g) = Some ph -> is_ph ph = true -> sget (a_store s) ph = None ->
     is_ph (g_key g) = false -> is_ph newid = true ->
-    (forall id, cl_id cl = Some id -> is_ph id = true) ->
     exists s' g' id,
       arun cttl s [ARead gi false false; AProbe gi false false; ARelease gi true; ARead gi false false;
-                   AKeep gi newid false; ALock gi false] = Some s' /\
+                   AKeep gi newid false; AInstall gi; ALock gi false] = Some s' /\
       nth_error (a_gets s') gi = Some g' /\ g_st g' = GSLoad id /\
       sget (a_store s') (g_key g) = Some id /\ In (g_key g, gi) (a_lock s').
 Proof. exact dead_lock_released. Qed.
 Print Assumptions C39_dead_lock_released.
+
+(** THE LOCK ID IS THE INSTALLED ID.  Whatever races in keepalive (several Gets of one client, each with a fresh
+    marker of its own), a Get that is about to lock, whose loader runs, or that stores / unlocks, does it under
+    the id installed in its client at that moment — as long as the client did not lose its connection.  That id
+    is the one the refresh goroutine extends, so the holder stays alive for the other clients while it loads
+    (the markers of the losers of the race are abandoned: they expire, nothing points to them). *)
+Theorem C39_lock_id_is_installed_id :
+  forall (cttl now : Z) (ls : list alabel) (s : astate) (gi : nat) (g : get) (id : bytes),
+    arun cttl (ainit now) ls = Some s -> ~ In (ALost (g_cl g)) ls ->
+    nth_error (a_gets s) gi = Some g -> (g_st g = GSLock id \/ holding (g_st g) id) ->
+    exists cl, nth_error (a_cls s) (g_cl g) = Some cl /\ cl_id cl = Some id.
+Proof. exact lock_id_is_installed_id. Qed.
+Print Assumptions C39_lock_id_is_installed_id.
+
+Theorem C39_refresh_extends_lock_id :
+  forall (cttl now : Z) (ls : list alabel) (s : astate) (gi : nat) (g : get) (id : bytes),
+    arun cttl (ainit now) ls = Some s -> ~ In (ALost (g_cl g)) ls ->
+    nth_error (a_gets s) gi = Some g -> (g_st g = GSLock id \/ holding (g_st g) id) ->
+    exists s', astep cttl s (ARefresh (g_cl g)) = Some s' /\ In (id, ([], a_now s + cttl)%Z) (a_store s').
+Proof. exact refresh_extends_lock_id. Qed.
+Print Assumptions C39_refresh_extends_lock_id.
 
 (** WAITING FOR THE RESULT (partial: delivery of invalidations is the environment's).  A Get that waits with
     both channels open is registered at the server for the key and for the holder's liveness key (tracked, or
@@ -137,7 +160,7 @@ Definition vv : bytes := [118%N; 49%N].
 
 Definition demo : list alabel :=
   [ANewClient; ANewClient;
-   AStartGet 0 kk 4000%Z true; ARead 0 false false; AKeep 0 id0 false; ALock 0 false;
+   AStartGet 0 kk 4000%Z true; ARead 0 false false; AKeep 0 id0 false; AInstall 0; ALock 0 false;
    AStartGet 1 kk 4000%Z true; ARead 1 false false; AProbe 1 false false;
    ALoad 0 (Some vv); AStore 0 true true;
    AInval 1 [kk]; AWake 1; ARead 1 false false].
@@ -153,6 +176,34 @@ Proof. unfold demo. repeat constructor. Qed.
 
 (** while client 0 loads, it is the registered loader and client 1 waits with open channels, pending at the server *)
 Example C39_nonvacuous_midway :
-  exists s g, arun 4000%Z (ainit 0%Z) (firstn 9 demo) = Some s /\ a_lock s = [(kk, 0)] /\
+  exists s g, arun 4000%Z (ainit 0%Z) (firstn 10 demo) = Some s /\ a_lock s = [(kk, 0)] /\
               nth_error (a_gets s) 1 = Some g /\ g_st g = GSWait id0 /\ g_wait_closed g = false /\ g_ph_closed g = false.
 Proof. eexists; eexists. vm_compute. repeat split; reflexivity. Qed.
+
+(** ---- non-vacuity of the keepalive race: two Gets of ONE fresh client (keys kk, k2) both miss, both SET a marker
+    of their own (id0, id1); Get 1 is first through the second critical section, so id1 is installed and BOTH
+    lock with id1; after ClientTTL without a refresh of id0 (id1 is refreshed half way) the abandoned marker id0
+    is gone, id1 is alive, and a Get of a second client that finds kk locked waits instead of releasing ---- *)
+Definition k2 : bytes := [107%N; 50%N].
+Definition id1 : bytes := ph_prefix ++ [49%N].
+Definition id2 : bytes := ph_prefix ++ [50%N].
+
+Definition race : list alabel :=
+  [ANewClient; ANewClient;
+   AStartGet 0 kk 60000%Z true; AStartGet 0 k2 60000%Z true;
+   ARead 0 false false; ARead 1 false false;
+   AKeep 0 id0 false; AKeep 1 id1 false; AInstall 1; AInstall 0;
+   ALock 0 false; ALock 1 false;
+   ATick 2000%Z; ARefresh 0; ATick 2500%Z;
+   AStartGet 1 kk 60000%Z true; ARead 2 false false; AProbe 2 false false].
+
+Example C39_race_nonvacuous :
+  exists s g, arun 4000%Z (ainit 0%Z) race = Some s /\
+            sget (a_store s) kk = Some id1 /\ sget (a_store s) k2 = Some id1 /\
+            sget (a_store s) id0 = None /\ sget (a_store s) id1 = Some [] /\
+            a_lock s = [(k2, 1); (kk, 0)] /\
+            nth_error (a_gets s) 2 = Some g /\ g_st g = GSWait id1.
+Proof. eexists; eexists. vm_compute. repeat split; reflexivity. Qed.
+
+Example C39_race_labels : Forall label_ok race.
+Proof. unfold race. repeat constructor. Qed.
